@@ -73,6 +73,7 @@ TIME_DOMAIN = {"single_azimuth": "traditional_single_azimuth_hvsr_processing",
 
 def run(ck: Checker, prog: Program, tier: str):
     ck.guard(_r1, ck, prog)
+    ck.guard(_r1_projection, ck, prog)
     ck.guard(_r2, ck, prog)
     for q in ROW_BODIES:
         ck.guard(_body, ck, prog, q)
@@ -100,6 +101,25 @@ def _r1(ck: Checker, prog: Program):
                 ck.violation("C01.R5", f.qualname, "degree", f"degree of {name} in (ns, ew) is {d}, expected 1", loc=f.loc())
         else:
             ck.violation("C01.R1", f.qualname, norm_key(rets[0]), f"{name} returns {got}; the defining formula is {want}", loc=f.loc(rets[0]))
+
+
+def _r1_projection(ck: Checker, prog: Program):
+    f = prog.func("processing.single_azimuth")
+    if f.params[:2] != ["ns", "ew"]:
+        ck.violation("C01.R1", f.qualname, "parameters", f"parameters are {f.params}; callers pass (ns, ew, azimuth)", loc=f.loc())
+        return
+    T = Translator(env={"ns": a, "ew": b, f.params[2]: t})
+    forward_substitute([st for st in f.node.body if isinstance(st, ast.Assign)], T)
+    rets = [r for r in own_nodes(f.node) if isinstance(r, ast.Return)]
+    if len(rets) != 1:
+        ck.violation("C01.R1", f.qualname, "single return", f"{len(rets)} return statements", loc=f.loc())
+        return
+    got = T.tr(rets[0].value)
+    want = a * sp.cos(t * sp.pi / 180) + b * sp.sin(t * sp.pi / 180)
+    if equal(got, want):
+        ck.ok("C01.R1", f.qualname, norm_key(rets[0]), detail="projection on azimuth t (degrees): a cos t + b sin t; linear in (ns, ew)")
+    else:
+        ck.violation("C01.R1", f.qualname, norm_key(rets[0]), f"single_azimuth returns {got}; the defining formula is {want}", loc=f.loc(rets[0]))
 
 
 def _r2(ck: Checker, prog: Program):
